@@ -41,6 +41,24 @@ func genNonDecLiteral(t *rapid.T) (string, int) {
 	if pt := rapid.IntRange(-1, n).Draw(t, "pt"); pt >= 0 {
 		m = m[:pt] + "." + m[pt:]
 	}
+	if rapid.IntRange(0, 2).Draw(t, "short") == 0 {
+		// short values with long runs of zeros: representable at small precisions, large binary exponent contribution
+		k := rapid.IntRange(1, 4).Draw(t, "shortn")
+		if k > n {
+			k = n
+		}
+		z1 := strings.Repeat("0", rapid.IntRange(0, 45).Draw(t, "z1"))
+		z2 := strings.Repeat("0", rapid.IntRange(0, 45).Draw(t, "z2"))
+		digitsOnly := strings.Replace(m, ".", "", 1)[:k]
+		switch rapid.IntRange(0, 2).Draw(t, "shortkind") {
+		case 0:
+			m = "." + z1 + digitsOnly + z2
+		case 1:
+			m = digitsOnly + z1 + "." + z2
+		default:
+			m = digitsOnly + "." + z1 + digitsOnly + z2
+		}
+	}
 	exp := ""
 	switch rapid.IntRange(0, 3).Draw(t, "ex") {
 	case 0:
